@@ -13,6 +13,7 @@ import (
 
 	"github.com/feichai0017/NoKV/kv"
 	"github.com/feichai0017/NoKV/utils"
+	"github.com/feichai0017/NoKV/verifhook"
 	"github.com/feichai0017/NoKV/wal"
 	"github.com/pkg/errors"
 )
@@ -67,6 +68,9 @@ func putWalBuffer(buf *bytes.Buffer) {
 }
 
 func arenaSizeFor(memTableSize int64) int64 {
+	if n := verifhook.Int("lsm.arena-size"); n > 0 {
+		return int64(n)
+	}
 	base := memTableSize
 	if base <= 0 {
 		base = utils.DefaultArenaSize
